@@ -4,10 +4,11 @@ Domain (DESIGN): version {1.0, 1.1} x request Connection header {absent, close, 
 Keep-Alive, KEEP-ALIVE, "close, x", upgrade} x method {GET, HEAD, POST} x request body framing {none, Content-Length, chunked} x
 no_keep_alive {F, T} x handler behaviour {buffered finish, flush+finish, finish before the body is read
 (stream_request_body handler answering from prepare()), explicit `Connection: close` response header,
-stream_request_body handler that writes+flushes in prepare() and finishes in the method after the body}
-= 1620 combinations x transport {fast, slow: the transport accepts no output until all input (request,
-body, pipelined request) was delivered and the loop is quiescent, then everything} = 3240 cases x timing of the second request {pipelined; sent after 10 s of virtual idle time on a server
-with body_timeout=5 s and idle_connection_timeout=30 s} = 6480 cases, each
+stream_request_body handler that writes+flushes in prepare() and finishes in the method after the body,
+three EMPTY-body responses: nothing written / write(b"") / explicit Content-Length: 0}
+= 2592 combinations x transport {fast, slow: the transport accepts no output until all input (request,
+body, pipelined request) was delivered and the loop is quiescent, then everything} = 5184 cases x timing of the second request {pipelined; sent after 10 s of virtual idle time on a server
+with body_timeout=5 s and idle_connection_timeout=30 s} = 10368 cases, each
 followed by a second pipelined request.  Both tiers enumerate the whole product
 (quick: request delivered in one segment; thorough: x3 segmentations: whole / byte-wise / head|rest);
 Hypothesis additionally samples the product with random segmentation.
@@ -33,7 +34,7 @@ Findings on the current tree (open, see known_findings.d/C03.json + findings_inb
       body framing / early finish (c);  early finish on HTTP/1.1 closes without Connection: close (b).
 With the proposed patches applied to a scratch copy the check is quiet with zero excluded cases.
 
-Sensitivity (quick tier, seed 1, each mutant applied alone to a scratch copy of tornado/; all 11 caught):
+Sensitivity (quick tier, seed 1, each mutant applied alone to a scratch copy of tornado/; all 12 caught):
   _can_keep_alive: HTTP/1.0 keep-alive honoured without body framing   -> C03.persistence / C03.open_but_response_not_self_delimiting
   finish: `_disconnect_on_finish` not set on early finish               -> C03.persistence
   write_headers: Keep-Alive acknowledged for every HTTP/1.0 request     -> C03.keepalive_ack_on_closing_connection
@@ -44,6 +45,12 @@ Sensitivity (quick tier, seed 1, each mutant applied alone to a scratch copy of 
   _can_keep_alive: HTTP/1.1 `Connection: close` ignored                 -> C03.persistence
   write_headers: `Connection: close` not emitted for HTTP/1.1           -> C03.closing_without_connection_close
   _can_keep_alive: Connection value compared case-sensitively           -> C03.keepalive_ack_on_closing_connection
+  write_headers: "undelimited body => close" test uses `not _expected_content_remaining` instead of
+      `"Content-Length" not in headers`: a buffered EMPTY response (Content-Length: 0) is treated as
+      close-delimited: Connection: close / no keep-alive ack, connection closed, pipelined request unserved
+                                                                        -> C03.persistence (closes)
+      (found by independent mutation testing and MISSED while every response had a non-empty body; three
+      empty-body behaviours are enumerated now)
   _read_message: body timeout armed as a plain IOLoop timer that is never removed when the body arrived in
       time: the stale timer of a FINISHED request closes the kept-alive connection body_timeout seconds later
                                                                         -> C03.persistence (closes)
@@ -80,7 +87,7 @@ PROPERTY = "C03"
 READY = True
 RULE = (
     "full product version(2) x Connection(9: absent, close/keep-alive in 3 spellings each, 'close, x', upgrade) x method(3) x body framing(3) x no_keep_alive(2) x handler "
-    "behaviour(5) = 1620 x transport fast/slow(2) x second request pipelined/after an idle pause with timeouts configured(2) = 6480 cases enumerated (quick: 1 segmentation, thorough: 3) plus Hypothesis samples of "
+    "behaviour(8, incl. three empty-body responses) = 2592 x transport fast/slow(2) x second request pipelined/after an idle pause with timeouts configured(2) = 10368 cases enumerated (quick: 1 segmentation, thorough: 3) plus Hypothesis samples of "
     "the same product with random request segmentation; each case pipelines a second request; "
     "non-trivial = persistence decided by >=2 factors (anything but plain HTTP/1.1 GET without body, "
     "buffered); distinct = SHA-1 of the case"
@@ -92,7 +99,7 @@ ASSUMPTIONS = [
 ]
 TECHNIQUE = "exhaustive enumeration of the factor product + property-based sampling with segmentation; predicate oracle transcribed from the statement"
 LEVEL_TEXT = (
-    "exhaustive over the factor product of the DESIGN (864) extended by a fifth handler behaviour and by 3 spellings of each connection option (1620) x fast/slow transport (3 segmentations in the thorough tier) "
+    "exhaustive over the factor product of the DESIGN (864) extended by four more handler behaviours (split prepare/method, three empty bodies) and by 3 spellings of each connection option (2592) x fast/slow transport (3 segmentations in the thorough tier) "
     "for one fixed small request/response body per framing; other bodies, timeouts and TLS are not covered"
 )
 SHARDS = 16
@@ -103,7 +110,7 @@ CONNS = [None, "close", "Close", "CLOSE", "keep-alive", "Keep-Alive", "KEEP-ALIV
 METHODS = ["GET", "HEAD", "POST"]
 FRAMINGS = ["none", "cl", "chunked"]
 NKA = [False, True]
-BEHAVIOURS = ["buffered", "flush", "early", "conn_close", "split_flush"]
+BEHAVIOURS = ["buffered", "flush", "early", "conn_close", "split_flush", "empty", "empty_write", "empty_cl0"]
 REQ_BODY = b"abc"
 
 PROGS = {
@@ -113,6 +120,10 @@ PROGS = {
     "conn_close": [("set_header", "Connection", "close"), ("write", b"hello")],
     # stream_request_body handler: write+flush in prepare() (before the body is read), rest after the body
     "split_flush": [("write", b"he"), ("flush", True), ("write", b"llo"), ("finish", None)],
+    # boundary of the body length: EMPTY self-delimited responses (Content-Length: 0) keep the connection open
+    "empty": [],                                             # handler returns without writing anything
+    "empty_write": [("write", b"")],                         # writes an empty chunk
+    "empty_cl0": [("set_header", "Content-Length", "0")],    # announces the empty body itself
 }
 SPLIT = {"split_flush": 2}
 
